@@ -266,6 +266,11 @@ func (s *CAStore) addToMemoryCache(
 	if err := write(tmpWriter); err != nil {
 		return err
 	}
+	if written := uint64(tmpWriter.Size()); written != size {
+		// The cache accounts the reserved size, the entry holds the written
+		// bytes: only admit entries for which the two agree.
+		return fmt.Errorf("blob length %d does not match reserved size %d", written, size)
+	}
 
 	data := tmpWriter.Bytes()
 	metaInfo, err := s.generateMetadataFromBytes(name, data, pieceLength)
